@@ -75,7 +75,7 @@ CLAIMED.update({
                 "are discharged automatically, every other unwrap/index/slice/div/shift site is held against a frozen per-function "
                 "baseline that is explicitly not a claim of safety. Decides: no new panic-capable construct in decode-reachable code, "
                 "and the guards that keep lazy views safe. Does not decide loops, stack or allocation, nor the baseline sites themselves.",
-        "note": "baseline sites are undecided (evidence counts them); 23 known-finding keys (F5, F15) by exact key and multiplicity; seven read-side panics repaired (fix: 5f315e7, 393a12a, 205b072, 474c4ae, e6f4867, 3c0880c, 0fe9510); genuine defect F30 (line readers stripped a CR of an earlier field: accessor panic on a record returned Ok) repaired (fix: bcc5e0d; rule P); rule L: fill_buf loops end at EOF; genuine defect F34 (unfused lazy field iterators) repaired (fix: 696297b; rule F)",
+        "note": "baseline sites are undecided (evidence counts them); 23 known-finding keys (F5, F15) by exact key and multiplicity; seven read-side panics repaired (fix: 5f315e7, 393a12a, 205b072, 474c4ae, e6f4867, 3c0880c, 0fe9510); genuine defect F30 (line readers stripped a CR of an earlier field: accessor panic on a record returned Ok) repaired (fix: bcc5e0d; rule P); rule L: fill_buf loops end at EOF; genuine defect F34 (unfused lazy field iterators) repaired (fix: 696297b; rule F); F41 (hostile CRAM mate distance panicked; fix: e24db8a; guard rule G)",
         "technique": "static analysis: whole-workspace call graph with class-hierarchy expansion, panic-construct inventory on MIR, constant-folding discharge, ratchet against reviewed tables",
         "design_ref": "§5 C15",
     },
